@@ -8,6 +8,11 @@ echo "== demo on clean tree"; (cd "$d" && PYTHONPATH=/repo/src /venv/bin/python 
 git apply "$d/patch.diff" || { echo "patch does not apply"; exit 2; }
 echo "== demo with the change"; (cd "$d" && PYTHONPATH=/repo/src /venv/bin/python -W ignore demo.py >/dev/null 2>&1; echo "demo exit (seeded) = $?")
 for p in "$@"; do
+  # the evidence files committed under /verif must come from runs on the unchanged tree: keep them out of a seeded run's way
+  cp /verif/evidence/$p.json /tmp/evidence_$p.keep 2>/dev/null
   (cd /verif && VERIF_SEED=${VERIF_SEED:-0} ./check "$p" 2>&1 | grep -E "VIOLATION|exit [0-9]" | tail -3)
+  mv /tmp/evidence_$p.keep /verif/evidence/$p.json 2>/dev/null
 done
 git checkout -- . ; git status --short | head -2
+# the generated part of the model goes back to the clean sources
+(cd /verif && PYTHONPATH=/verif:/repo/src /venv/bin/python -W ignore -m harness.gen_interp >/dev/null 2>&1; PYTHONPATH=/verif:/repo/src /venv/bin/python -W ignore -m harness.gen_infer >/dev/null 2>&1)
